@@ -2,7 +2,8 @@
 (***************************************************************************)
 (* Estimate state machine of EstimationModel (inertial_sensor.py:184-227)  *)
 (* for the layout of mask M: reset_estimates, update_estimates(x),         *)
-(* get_estimates, output_matrix(readings).  Integers stand for multiples   *)
+(* get_estimates, output_matrix(readings), correct_increments.  Integers    *)
+(* stand for multiples                                                     *)
 (* of 2^-6 (exact in floats).                                              *)
 (*   bias[a]    accumulated bias estimate of axis a                        *)
 (*   tr[o][i]   accumulated transform estimate MINUS the identity          *)
@@ -65,12 +66,20 @@ OutputMatrix(r) ==
   /\ ops' = Append(ops, <<"H", r>>)
   /\ UNCHANGED <<bias, tr, sum>>
 
+\* correct_increments(dt, increments): solves (I + tr) y = increments - bias dt with the CURRENT estimates - a function of
+\* the estimate state only, not of the history (a cached factorisation must be invalidated by reset as well as by update)
+Correct ==
+  /\ ret' = [corr |-> <<bias, tr>>]
+  /\ ops' = Append(ops, <<"correct">>)
+  /\ UNCHANGED <<bias, tr, sum>>
+
 Bounded == Len(ops) < MaxOps
 ResetAct == Bounded /\ Reset
 UpdateAct == Bounded /\ \E j \in 1..NVec : Update(j)
 GetAct == Bounded /\ Get
 HAct == Bounded /\ \E r \in Readings : OutputMatrix(r)
-Next == ResetAct \/ UpdateAct \/ GetAct \/ HAct
+CorrectAct == Bounded /\ Correct
+Next == ResetAct \/ UpdateAct \/ GetAct \/ HAct \/ CorrectAct
 Spec == Init /\ [][Next]_vars
 
 \* accumulating estimates in several updates equals one update with their sum
